@@ -11,9 +11,10 @@ if [ ! -s "$out/patch.diff" ]; then echo "NO CHANGE in $wt"; exit 2; fi
 cp demo_$id.py "$out/demo.py" 2>/dev/null; cp NOTES_$id.md "$out/NOTES.md" 2>/dev/null
 tests=$(/venv/bin/python -m pytest -q -p no:cacheprovider -x 2>&1 | tail -1)
 PYTHONPATH=$wt /venv/bin/python demo_$id.py >/dev/null 2>&1; with=$?
-git stash -q -- jsonschema
+# (git stash is shared between worktrees: revert and re-apply the patch instead)
+git apply -R "$out/patch.diff"
 PYTHONPATH=$wt /venv/bin/python demo_$id.py >/dev/null 2>&1; without=$?
-git stash pop -q
+git apply "$out/patch.diff"
 echo "tests: $tests | demo exit with change: $with, without: $without"
 cd /verif
 chk=$(VERIF_REPO=$wt timeout 1800 /venv/bin/python -m vf.check $id --no-evidence 2>&1)
